@@ -15,14 +15,17 @@ def _v(name, buf, mode, forced, dq, dt, thorough_only=False, extra=()):
 reg("C17",
     level="model_checking",
     technique="explicit-state BFS over the real ll_data_pdu_buffer<TX,RX,Radio>, driven like the nrf52 radio interrupt handler (CRC ok + MIC bad -> acknowledge(read_buffer)), MIC failures at every position of the PDU stream (new and resent PDUs, buffer full or not) against an independent central; NESN and receive ring checked after every MIC failure",
-    rule="state = byte image of the real buffer object (rings, SN/NESN bits, counters) + fallback receive buffer + reference model; one transition = one connection event = upper-layer action {none, commit 1 byte, commit 27 bytes, consume, consume after the receive buffer was allocated, new connection = buffer memory reused for advertising + reset_pdu_buffer()} x central {new data, new empty, repeat last PDU, new non-empty PDU with LLID 0} x fault c->p {ok, lost, CRC error, MIC error} x fault p->c {ok, lost}; classes = (ISR path, new/resent data/empty, ack/nak, transmit ring released, kind of answer, central acknowledged). oracle C17: after acknowledge(read_buffer) (CRC ok, MIC bad) NESN is unchanged and the PDU is not in the receive ring; the central's NESN may release the transmit ring",
-    bound="every sequence may contain one new connection (reset_pdu_buffer() on the same object, central restarts with SN=NESN=0) and one non-empty PDU with the reserved LLID 0 (quick units mix58 / mix87: neither - MIC failures on new PDUs already double the alphabet of C17). quick: TX=RX=29 all reachable states (fixpoint, incl. a central repeating acknowledged PDUs); TX=RX=58 both directions 6 connection events, 87 both directions 5, 58 with a central that also repeats acknowledged PDUs 4; receive direction alone (nothing committed): 58 10 events, 87 8 events; transmit direction alone (central sends empty PDUs): 58 7 events, 87 8 events; real nrf52 ISR as device under test: 58 both directions 4 events. thorough: 58 both directions 8 events (alphabet without new connection / LLID 0) and 7 events (with them), 61 (library default) 6, 87 6, repeated-acknowledged variant 6; receive direction alone: fixpoint = all reachable states for 58 (also with repeated acknowledged PDUs), 87 16 events, 87 with repeated acknowledged PDUs 12 events; transmit direction alone 9 (58) / 12 (87) events; real ISR: 58 7 events, 87 6, receive direction fixpoint, transmit direction 9. Payload ids and packet counters modulo 4.",
+    rule="state = byte image of the real buffer object (rings, SN/NESN bits, counters) + fallback receive buffer + reference model; one transition = one connection event = upper-layer action {none, commit 1 byte, commit 27 bytes, consume, consume after the receive buffer was allocated, new connection = buffer memory reused for advertising + reset_pdu_buffer(), commit 1 byte / consume with the radio interrupt of this event arriving when the call takes its lock_guard} x central {new data, new empty, repeat last PDU, new non-empty PDU with LLID 0} x fault c->p {ok, lost, CRC error, MIC error} x fault p->c {ok, lost}; classes = (ISR path, new/resent data/empty, ack/nak, transmit ring released, kind of answer, central acknowledged). oracle C17: after acknowledge(read_buffer) (CRC ok, MIC bad) NESN is unchanged and the PDU is not in the receive ring; the central's NESN may release the transmit ring",
+    bound="every sequence may contain one new connection (reset_pdu_buffer() on the same object, central restarts with SN=NESN=0) and one non-empty PDU with the reserved LLID 0 (quick units mix58 / mix87: neither - MIC failures on new PDUs already double the alphabet of C17). units mix58_87 / mix87_58: TransmitSize != ReceiveSize, both directions, 5 events (thorough 6). quick: TX=RX=29 all reachable states (fixpoint, incl. a central repeating acknowledged PDUs); TX=RX=58 both directions 6 connection events, 87 both directions 5, 58 with a central that also repeats acknowledged PDUs 4; receive direction alone (nothing committed): 58 10 events, 87 8 events; transmit direction alone (central sends empty PDUs): 58 7 events, 87 8 events; real nrf52 ISR as device under test: 58 both directions 4 events. thorough: 58 both directions 8 events (alphabet without new connection / LLID 0) and 7 events (with them), 61 (library default) 6, 87 6, repeated-acknowledged variant 6; receive direction alone: fixpoint = all reachable states for 58 (also with repeated acknowledged PDUs), 87 16 events, 87 with repeated acknowledged PDUs 12 events; transmit direction alone 9 (58) / 12 (87) events; real ISR: 58 7 events, 87 6, receive direction fixpoint, transmit direction 9. Payload ids and packet counters modulo 4. nrf52.cpp radio_hardware_with_crypto_support::received_pdu(): all 128 combinations of CRC status, PAYLOAD event, encryption on/off, length 0 / >0, ENDCRYPT event, MICSTATUS, CCM error: valid_pdu only with a valid CRC and (nothing to decrypt or MIC checked and passed).",
     units=[dict(src="harness/C15_ll_buffer.cpp", defs=["ORACLE=17"],
                 variants=[_v("mix29", 29, 0, 1, 40, 40),
-                          _v("mix58", 58, 0, 0, 6, 8, extra=["LLID0_Q=0", "RESETS_Q=0", "RESETS_T=0", "LLID0_T=0"]),   # quick: with new connection; thorough: the plain alphabet to 8 events (MIC failures on new PDUs double the alphabet of C17)
+                          _v("mix58", 58, 0, 0, 6, 8, extra=["LLID0_Q=0", "RESETS_Q=0", "RESETS_T=0", "LLID0_T=0", "IRQ_T=0"]),   # quick: with new connection; thorough: the plain alphabet to 8 events (MIC failures on new PDUs double the alphabet of C17)
                           _v("mix58x", 58, 0, 0, 6, 7, thorough_only=True),                # thorough: with new connection / LLID 0
                           _v("mix87", 87, 0, 0, 5, 6, extra=["LLID0_Q=0", "RESETS_Q=0"]),
                           _v("mix58f", 58, 0, 1, 4, 6),
+                          # transmit and receive memory of different size ( the two rings share one array )
+                          _v("mix58_87", 58, 0, 0, 5, 6, extra=["TXBUF=58", "RXBUF=87", "LLID0_Q=0", "RESETS_Q=0"]),
+                          _v("mix87_58", 58, 0, 0, 5, 6, extra=["TXBUF=87", "RXBUF=58", "LLID0_Q=0", "RESETS_Q=0"]),
                           _v("mix61", 61, 0, 0, 6, 6, thorough_only=True),
                           _v("rx58", 58, 1, 0, 10, 60),
                           _v("rx58f", 58, 1, 1, 60, 60, thorough_only=True),
@@ -35,9 +38,16 @@ reg("C17",
                 variants=[_v("isr58", 58, 0, 0, 4, 7),
                           _v("isr87", 87, 0, 0, 4, 6, thorough_only=True),
                           _v("isr58rxf", 58, 1, 1, 60, 60, thorough_only=True),
-                          _v("isr58txf", 58, 2, 1, 7, 9, thorough_only=True)])],
+                          _v("isr58txf", 58, 2, 1, 7, 9, thorough_only=True)]),
+           # the register level half of the binding: nrf52.cpp itself on the host ( generated <nrf.h> stand-in )
+           dict(src="harness/C16_nrf52_hw.cpp", defs=["ORACLE=17"], link_ll=True, pre=["python3", "gen/C16_nrf52_stub.py"],
+                flags=["-fpermissive", "-no-pie", "-I" + _V + "/build/C17/c16stub", "-I" + _R + "/bluetoe/bindings/nordic/include",
+                       "-I" + _R + "/bluetoe/bindings/nordic/nrf52/include", "-I" + _R + "/bluetoe/bindings/nordic/nrf52", "-I" + _R + "/bluetoe/bindings/nordic/uECC"])],
     quick_deadline=40, thorough_deadline=560,
     assumptions=[
+        "unit C16_nrf52_hw: nrf52.cpp is compiled into the harness against a stand-in for <nrf.h> generated from the identifiers the binding uses (gen/C16_nrf52_stub.py); peripherals are RAM, the harness plays RADIO / CCM; random_number32/64 and aes_le used by setup_encryption() are fakes; if the binding no longer compiles against the generated stub the unit reports itself as dropped (exhaustive=false) instead of failing the build",
+        "interrupted calls: the harness owns Radio::lock_guard; when armed, the constructor of the guard first runs the radio's part of the connection event (interrupt arrives while the main context is about to take the lock); on correct code this equals 'interrupt, then call'",
+        "placement: allocate_transmit_buffer() has to return memory inside the first TransmitSize bytes of raw_pdu_buffer(), allocate_receive_buffer() inside the ReceiveSize bytes behind them",
         "units isr*: nrf52_radio_base is instantiated on the host with a fake Hardware (scripted received_pdu(), recorded configure_receive_train / configure_final_transmit) and zero initialised storage (radio objects are static on the target); the real ISR stays silent on a CRC error (treated like a lost PDU), the transcribed table of the other units answers with next_transmit() - both are explored",
         "driver = decision table of nrf52_radio_base::radio_interrupt_handler (state evt_wait_connect): no anchor -> nothing called; fallback receive buffer or CRC error -> next_transmit(); valid PDU -> received(); CRC ok + MIC bad -> acknowledge(); one PDU pair per connection event; receive buffer allocated when the event is scheduled",
         "the central obeys the SN/NESN rules (new PDU only after the acknowledge); variants *f add a central that repeats an already acknowledged PDU",
